@@ -13,6 +13,10 @@
 (* "server", or "missing" everywhere, with or without can-delay.  Paths    *)
 (* are assigned by position; "shared" smudges reuse the previous request's *)
 (* object under a new path (one blob, two paths).                          *)
+(* off says whether smudging is switched off for the session: "skip"       *)
+(* (GIT_LFS_SKIP_SMUDGE) or "exclude" (lfs.fetchexclude names the paths);  *)
+(* every smudge request is then answered with the pointer it was given,    *)
+(* as the one-shot filter does, wherever the object is.                    *)
 (***************************************************************************)
 EXTENDS Integers, Sequences, FiniteSets, TLC, Json, CSV, IOUtils
 
@@ -21,22 +25,23 @@ CONSTANTS MaxReq, Emit
 Requests == {[cmd |-> "clean", what |-> w, delay |-> FALSE] : w \in {"data", "pointer", "empty"}}
        \cup {[cmd |-> "smudge", what |-> w, delay |-> d] : w \in {"local", "server", "server2", "missing", "shared"}, d \in BOOLEAN}
 
-VARIABLES prog, capDelay, skipErr
-vars == <<prog, capDelay, skipErr>>
+VARIABLES prog, capDelay, skipErr, off
+vars == <<prog, capDelay, skipErr, off>>
+Offs == {"no", "skip", "exclude"}
 
-Init == prog = <<>> /\ capDelay \in BOOLEAN /\ skipErr \in BOOLEAN
+Init == prog = <<>> /\ capDelay \in BOOLEAN /\ skipErr \in BOOLEAN /\ off \in Offs
 
 \* Git only says can-delay=1 when the filter announced the capability
 Allowed(r) == /\ (r.delay => capDelay)
               /\ (r.what = "shared" => Len(prog) > 0 /\ prog[Len(prog)].cmd = "smudge" /\ prog[Len(prog)].what \in {"server", "server2"})
 Add(r) == /\ Len(prog) < MaxReq /\ Allowed(r)
-          /\ prog' = Append(prog, r) /\ UNCHANGED <<capDelay, skipErr>>
+          /\ prog' = Append(prog, r) /\ UNCHANGED <<capDelay, skipErr, off>>
 Next == \E r \in Requests : Add(r)
 Spec == Init /\ [][Next]_vars
 
 \* what Git does next: it asks for available blobs iff something was delayed
-NeedsDrain == \E i \in DOMAIN prog : prog[i].cmd = "smudge" /\ prog[i].delay /\ prog[i].what # "local"
+NeedsDrain == off = "no" /\ \E i \in DOMAIN prog : prog[i].cmd = "smudge" /\ prog[i].delay /\ prog[i].what # "local"
 
-Out == [prog |-> prog', capDelay |-> capDelay, skipErr |-> skipErr]
+Out == [prog |-> prog', capDelay |-> capDelay, skipErr |-> skipErr, off |-> off]
 EmitEdge == Emit => CSVWrite("%1$s", <<ToJson(Out)>>, IOEnv.OUT)
 =============================================================================
